@@ -66,13 +66,18 @@ def extract():
     keeps = re.search(r"let id\s*=\s*m\.header\.id;", rest) and re.search(r"replacement\.header\.id\s*=\s*id;", rest)
     if not re.search(r"Some\(replacement\.into_wire_bytes\(\)\)\s*$", rest.strip()): raise ExtractError("frame_outbound: tail expression")
     f["keepsId"] = bool(keeps)
-    # every binary send in the server file sends the `bytes` bound from frame_outbound
+    # every binary send in the server file sends a `bytes` that can only have come from frame_outbound
     cons = binary_constructions(srv)
     guarded = len(cons) >= 3
+    fn_starts = [m.start() for m in re.finditer(r"\bfn\s+\w+", srv)]
     for pos, arg in cons:
-        before = srv[max(0, pos - 600):pos]
-        binds = list(re.finditer(r"\b(\w[\w\s\(\)]*?)\bbytes\b\)?\s*=\s*([\w:\.]+)\(", before))
-        ok = arg == "bytes" and binds and binds[-1].group(2) == "frame_outbound" and "Some(" in binds[-1].group(1)
+        start = max([p for p in fn_starts if p < pos], default=0)
+        i = srv.find("{", start)
+        encl = srv[i:match_brace(srv, i)]
+        binds = re.findall(r"(\w[\w\s\(]*?)\bbytes\b\)?\s*(?::[^=]+)?=(?!=)\s*([^;{]*)", encl)
+        ok = arg == "bytes" and len(binds) >= 1 and all(b[1].strip().startswith("frame_outbound(") and "Some(" in b[0] for b in binds)
+        # nothing else in a sending function may serialise a message
+        ok = ok and not re.search(r"into_wire_bytes\(|\.to_vec\(\)|\.encode\(\)|write_to\(", encl)
         guarded = guarded and bool(ok)
     f["writerGuarded"] = guarded
     f["binarySends"] = len(cons)
@@ -81,14 +86,20 @@ def extract():
     wr = fn_body(cli, "write_request")
     m = re.search(r"let bytes\s*=\s*msg\.to_vec\(\);", wr)
     if not m: raise ExtractError("write_request: `let bytes = msg.to_vec();`")
-    c = re.search(r"self\.inner\.limits\.check_outbound\(\s*bytes\.len\(\)\s*\)\?;", wr)
-    c2 = re.search(r"check_outbound\(([^)]*(?:\([^)]*\))*[^)]*)\)", wr)
-    if c2 and not c:
-        inner = " ".join(c2.group(1).split())
-        if inner == "msg.body.len()": f["clientLenTerms"] = ["body"]
-        elif inner.startswith("HEADER_SIZE") or "+" in inner: f["clientLenTerms"] = len_terms(inner, "msg")
+    c = re.search(r"check_outbound\(", wr)
+    if c:
+        depth, j = 1, c.end()
+        while depth:
+            depth += {"(": 1, ")": -1}.get(wr[j], 0); j += 1
+        inner = "".join(wr[c.end():j - 1].split())
+        bound = re.search(r"let " + re.escape(inner) + r"\s*=\s*([^;]*);", wr) if re.fullmatch(r"\w+", inner) else None
+        if bound: inner = "".join(bound.group(1).split())
+        if inner == "bytes.len()": f["clientLenTerms"] = ["header", "query", "body"]
+        elif inner == "msg.body.len()": f["clientLenTerms"] = ["body"]
+        elif inner == "msg.query.len()+msg.body.len()": f["clientLenTerms"] = ["query", "body"]
+        elif "HEADER_SIZE" in inner: f["clientLenTerms"] = len_terms(inner.replace("+", " + "), "msg")
         else: raise ExtractError(f"write_request: measured size `{inner}`")
-        c = c2 if re.match(r"\)?\s*\?;", wr[c2.end() - 1:]) else None
+        if not re.match(r"\s*\?;", wr[j:]): c = None     # result not propagated with `?`
     else:
         f["clientLenTerms"] = ["header", "query", "body"]
     s = re.search(r"\.send\(WsMessage::Binary\(bytes\)\)", wr)
